@@ -17,6 +17,7 @@ CONSTANTS N,            \* scopes 1..N
           NNames,       \* 1: the name x only; 2: x and y
           FullY,        \* TRUE: y may be used in every way; FALSE: load / store / walrus only (smaller space)
           Skeleton,     \* TRUE: only the scope skeleton module > function > function > {comprehension, lambda | comprehension | function} (PEP 709 shapes, N = 5)
+          AnyOrder,     \* TRUE: the assigner may process bindings in any order; FALSE: one fixed order (outer scopes first), for the large skeleton
           AllOptions    \* TRUE: every option combination; FALSE: rename_locals and rename_globals on, nothing preserved, not tainted
 Names == IF NNames = 1 THEN {"x"} ELSE {"x", "y"}
 Scopes == 1..N
@@ -47,7 +48,9 @@ OKsmall(k, u) ==
     CASE k = "g" -> u \subseteq {"load", "store", "walrus"} /\ ~({"store", "walrus"} \subseteq u)
       [] k = "l" -> u \subseteq {"load"}
       [] OTHER   -> u \subseteq {"load", "store"}
-ValidUses(k) == IF Skeleton /\ k = "m" THEN {[n \in Names |-> {}]} ELSE { f \in [Names -> SUBSET Hows] :
+ValidUses(k) == IF Skeleton /\ k = "m" THEN {[n \in Names |-> {}]}
+                ELSE IF Skeleton THEN [Names -> SUBSET (IF k = "l" THEN {"load"} ELSE {"load", "store"})]
+                ELSE { f \in [Names -> SUBSET Hows] :
                     \A n \in Names : IF (n = FirstName \/ FullY) /\ ~Skeleton THEN OKfull(k, f[n]) ELSE OKsmall(k, f[n]) }
 
 RECURSIVE SeqProd(_)
@@ -150,6 +153,7 @@ Assign ==
     /\ pc = "assign" /\ todo # {}
     /\ \E b \in todo :
          LET sc == ResScope(b) IN
+         /\ (AnyOrder \/ \A c \in todo : (b[1] < c[1] \/ (b[1] = c[1] /\ (b[2] = "x" \/ c[2] = "y"))))
          /\ todo' = todo \ {b}
          /\ IF Pinned(b)
               THEN /\ newname' = newname
